@@ -1,6 +1,10 @@
 use std::{borrow::Cow, fmt::Display, sync::Arc};
 
-use pyo3::{exceptions::PyValueError, prelude::*, types::PyList};
+use pyo3::{
+    exceptions::PyValueError,
+    prelude::*,
+    types::{PyInt, PyList},
+};
 
 #[derive(Debug, Clone)]
 pub(crate) enum FieldValue {
@@ -103,6 +107,12 @@ impl<'a, 'py> pyo3::FromPyObject<'a, 'py> for FieldValue {
             Ok(FieldValue::Int64(inner))
         } else if let Ok(inner) = value.extract::<u64>() {
             Ok(FieldValue::Uint64(inner))
+        } else if value.is_instance_of::<PyInt>() {
+            // Don't fall through to the float conversion below: it would silently round the integer.
+            let display = value.str().map(|s| s.to_string()).unwrap_or_default();
+            Err(PyValueError::new_err(format!(
+                "Value {display} is not supported by Trustfall: integers must fit in 64 bits",
+            )))
         } else if let Ok(inner) = value.extract::<f64>() {
             if inner.is_finite() {
                 Ok(FieldValue::Float64(inner))
